@@ -503,3 +503,26 @@ Fixpoint hist_ok (g : cfg) (tf : list block) (ops : list op) : Prop :=
   end.
 Fixpoint count_adds (ops : list op) : N :=
   match ops with [] => 0 | Add _ :: r => 1 + count_adds r | Remove _ :: r => count_adds r end.
+
+(** * Restarts.  What survives a restart of the signer is what ChainTrackerEntry keeps for
+    the listener: the monitor State and its ListenSlot (watches, seen).  The tracker's own
+    window of remembered headers is not part of this model (it decides which disconnections
+    the tracker accepts: C13); the harness checks on the implementation that a restart is
+    transparent for the histories of this model. *)
+Definition entry : Type := (state * list outpoint * list outpoint)%type.
+Definition persist (m : mon) : entry := (m_state m, m_watches m, m_seen m).
+Definition restore (e : entry) : mon := let '(s, w, sn) := e in mkmon s w sn.
+
+Inductive rop := Deliver (o : op) | Restart.
+Fixpoint run_r (fx : fixes) (g : cfg) (m : mon) (rops : list rop) : res mon :=
+  match rops with
+  | [] => Ok m
+  | Deliver o :: r => m' <- mstep fx g m o ;; run_r fx g m' r
+  | Restart :: r => run_r fx g (restore (persist m)) r
+  end.
+Fixpoint deliveries (rops : list rop) : list op :=
+  match rops with
+  | [] => []
+  | Deliver o :: r => o :: deliveries r
+  | Restart :: r => deliveries r
+  end.
